@@ -5,9 +5,9 @@ Model of `src/skeleton.rs`: the binrw `SKLB` container header (magic `blks`, ver
 header with the offset of the Havok data, `raw_data` = everything from that offset to the end of the
 file) and `Skeleton::from_existing`.
 
-A binrw read error (bad magic, short header) is `None`; a version that is neither `0x31323030` nor
-`0x3133303{0,1}` makes the `seek_before` expression `unwrap` a `None` (panic); everything that goes
-wrong inside the Havok reader and the extraction is a panic.
+A binrw read error (bad magic, short header, a version that is neither `0x31323030` nor
+`0x3133303{0,1}`) is `None`; everything that goes wrong inside the Havok reader and the extraction is
+a panic.
 -/
 namespace Physis.Sklb
 open Physis
@@ -38,7 +38,8 @@ def havokOffset (file : Bytes) : Outcome Nat :=
           match Rd.u32s 7 b with
           | some ([_, off, _, _, _, _, _], _) => .ok off.toNat
           | _ => .none
-        else .panic
+        -- `#[br(assert(version == ..))]`: any other version is a read error
+        else .none
 
 /-- `Skeleton::from_existing` -/
 def fromExisting (file : Bytes) : Outcome (List Havok.Bone) :=
